@@ -248,6 +248,25 @@ RelRef(x, ctx) == \E y \in TermsOf(x) : (y.t = "call" \/ (y.t = "ref" /\ ctx = "
 \* D7 (same root: a package end that is never popped): in a deferred block a Buffer / Package / VarPackage that is read as an ARGUMENT
 \* OF AN INVOCATION leaves its package end behind; the next argument or statement is not read (table rejected)
 PkgArgInDeferred(x) == \E y \in TermsOf(x) : y.t = "call" /\ \E i \in 1..Len(y.a) : y.a[i].t \in {"buffer", "package", "varpackage"}
+\* names of a term that the parser LOOKS UP when the term is read in context ctx: every name except a SuperName / Target operand that is
+\* parsed by its declared type (those are kept as written and never looked up, so no lookup rule of the tree matters for them)
+RECURSIVE LookedUp(_, _)
+LookedUp(x, ctx) ==
+  CASE x.t = "ref" -> {x}
+    [] x.t = "call" -> {x} \cup UNION {LookedUp(x.a[i], ctx) : i \in 1..Len(x.a)}
+    [] x.t = "buffer" -> LookedUp(x.a[1], "strict")
+    [] x.t = "op" -> UNION { IF OpSig[x.s][i] \in {"N", "G"} /\ x.a[i].t = "ref" /\ Typed(OpSig[x.s], i, ctx) THEN {} ELSE LookedUp(x.a[i], ctx) : i \in 1..Len(x.a) }
+    [] HasA(x) -> UNION {LookedUp(x.a[i], ctx) : i \in 1..Len(x.a)}
+    [] OTHER -> {}
+\* ... of these, the names looked up while a DEFERRED block is read (a name the tree cannot resolve there rejects the table; in the
+\* first pass it would simply stay a name)
+RECURSIVE StrictLooked(_, _)
+StrictLooked(x, strict) ==
+  CASE x.t = "ref" -> IF strict THEN {x} ELSE {}
+    [] x.t = "buffer" -> StrictLooked(x.a[1], TRUE)
+    [] x.t = "op" -> UNION { IF OpSig[x.s][i] \in {"N", "G"} /\ x.a[i].t = "ref" /\ strict THEN {} ELSE StrictLooked(x.a[i], strict) : i \in 1..Len(x.a) }
+    [] HasA(x) -> UNION {StrictLooked(x.a[i], strict) : i \in 1..Len(x.a)}
+    [] OTHER -> {}
 EmptyBuf(x) == \E y \in TermsOf(x) : y.t = "buffer" /\ y.n = <<>>
 \* triggers of one term x read in scope cur (ctx flat/strict; stmt: x is a whole statement or declaration value)
 TermTrigX(st, cur, x, ctx) ==
@@ -261,18 +280,9 @@ TermTrigX(st, cur, x, ctx) ==
   \cup (IF Dev_MatchOperatorBytes /\ BadMatch(x, ctx) THEN {"MatchOperatorBytes"} ELSE {})
   \cup (IF Dev_VarPackageCountByte /\ BadVarPkg(x) THEN {"VarPackageCountByte"} ELSE {})
   \cup (IF Dev_RelPathInTerm /\ (RelRef(x, ctx) \/ \E b \in BufLens(x) : RelRef(b, "strict")) THEN {"RelPathInTerm"} ELSE {})
-  \cup UNION { (IF UsesCaretInObjectScope(st.ns, cur, f) THEN {"D1"} ELSE {})
-               \cup (IF PathThroughObject(st.ns, cur, f, f.segs) THEN {"D2c"} ELSE {}) : f \in NamesInX(x) }
+  \cup UNION { (IF UsesCaretInObjectScope(st.ns, cur, y.f) THEN {"D1"} ELSE {})
+               \cup (IF PathThroughObject(st.ns, cur, y.f, y.f.segs) THEN {"D2c"} ELSE {}) : y \in LookedUp(x, ctx) }
 
-\* names that are LOOKED UP while a deferred block is read (a name the tree cannot resolve there rejects the table; in the first pass
-\* it would simply stay a name): every name except the SuperName / Target operands, which are kept as written
-RECURSIVE StrictLooked(_, _)
-StrictLooked(x, strict) ==
-  CASE x.t = "ref" -> IF strict THEN {x} ELSE {}
-    [] x.t = "buffer" -> StrictLooked(x.a[1], TRUE)
-    [] x.t = "op" -> UNION { IF OpSig[x.s][i] \in {"N", "G"} /\ x.a[i].t = "ref" /\ strict THEN {} ELSE StrictLooked(x.a[i], strict) : i \in 1..Len(x.a) }
-    [] HasA(x) -> UNION {StrictLooked(x.a[i], strict) : i \in 1..Len(x.a)}
-    [] OTHER -> {}
 \* triggers that need the FINAL namespace (checked at the end of the table): what a name designates
 LateTrig(st, it) ==
   LET v == Vis(st) IN
@@ -507,12 +517,15 @@ ApplyX0(st, t) ==
          [] t.k = "endtable" -> EndTableX(st)
          [] OTHER -> Fail(st, <<"unknown token", t>>)
 
-\* reloc: objects of the table being loaded whose name is written with a prefix or path: the parser moves them to the END of their
-\* scope in its relocation pass (matters for the order in which same-named nodes are found, see Dev_AliasKeepsSourceName)
+\* reloc: objects of the table being loaded that the parser moves to the END of their scope after the first pass: those whose name is
+\* written with a prefix or path (relocation pass) and those written directly inside a Scope directive (merge pass).  Matters for the
+\* order in which same-named nodes are found (see Dev_AliasKeepsSourceName / Dev_IndexFieldNamed)
 ApplyX(st, t) ==
-  LET s1 == ApplyX0(st, t) IN
-  IF st.err = <<>> /\ s1.err = <<>> /\ t.k \in {"open", "method", "decl"} /\ HasPathX(t.f)
-  THEN [s1 EXCEPT !.reloc = @ \cup {DeclPath(st.ns, Cur(st), t.f)}] ELSE s1
+  LET s1 == ApplyX0(st, t)
+      inScopeDir == st.stack # <<>> /\ Last(st.stack).t = "scope" IN
+  IF st.err = <<>> /\ s1.err = <<>> /\ t.k \in {"open", "method", "decl", "field", "ifield", "bfield", "cfield", "alias"}
+     /\ (inScopeDir \/ (t.k \in {"open", "method", "decl"} /\ HasPathX(t.f)))
+  THEN [s1 EXCEPT !.reloc = @ \cup {e.p : e \in s1.ns \ st.ns}] ELSE s1
 
 RECURSIVE LoadFromX(_, _, _)
 LoadFromX(st, toks, i) == IF i > Len(toks) THEN st ELSE LoadFromX(ApplyX(st, toks[i]), toks, i + 1)
